@@ -1081,6 +1081,8 @@ func (v *objectCallPacket) UnmarshalBinary(data []byte) (err error) {
 	}
 	p = p[v.CommandObject.Size():]
 
+	// The arguments are optional on the wire: a reused packet keeps none from before.
+	v.Args = nil
 	if len(p) == 0 {
 		return
 	}
@@ -1292,6 +1294,8 @@ func (v *CallPacket) UnmarshalBinary(data []byte) (err error) {
 	}
 	p = p[v.variantCallPacket.Size():]
 
+	// The arguments are optional on the wire: a reused packet keeps none from before.
+	v.Args = nil
 	if len(p) > 0 {
 		if v.Args, err = amf0.Discovery(p); err != nil {
 			return oe.WithMessage(err, "discovery args")
